@@ -93,6 +93,13 @@ where
         self.role
     }
 
+    /// The limit to advertise when the concurrency controller proposes `proposed`:
+    /// a stream limit never exceeds 2^60 streams and never decreases.
+    fn raised_limit(current: u64, proposed: u64) -> Option<u64> {
+        let proposed = proposed.min(crate::sid::MAX_STREAMS_LIMIT + 1);
+        (proposed > current).then_some(proposed)
+    }
+
     fn try_accept_sid(&mut self, sid: StreamId) -> Result<AcceptSid, ExceedLimitError> {
         debug_assert_eq!(sid.role(), self.role);
         let idx = sid.dir() as usize;
@@ -105,7 +112,9 @@ where
         } else {
             let start = *cur;
             *cur = unsafe { sid.next_unchecked() };
-            if let Some(max_streams) = self.ctrl.on_accept_streams(sid.dir(), sid.id()) {
+            if let Some(max_streams) = self.ctrl.on_accept_streams(sid.dir(), sid.id())
+                && let Some(max_streams) = Self::raised_limit(self.max[idx], max_streams)
+            {
                 self.max[idx] = max_streams;
                 self.max_tx.send_frame([MaxStreamsFrame::with(
                     sid.dir(),
@@ -122,7 +131,9 @@ where
             return;
         }
 
-        if let Some(max_streams) = self.ctrl.on_end_of_stream(sid.dir(), sid.id()) {
+        if let Some(max_streams) = self.ctrl.on_end_of_stream(sid.dir(), sid.id())
+            && let Some(max_streams) = Self::raised_limit(self.max[sid.dir() as usize], max_streams)
+        {
             self.max[sid.dir() as usize] = max_streams;
             self.max_tx.send_frame([MaxStreamsFrame::with(
                 sid.dir(),
@@ -136,7 +147,10 @@ where
             StreamsBlockedFrame::Bi(max) => (Dir::Bi, max.into_u64()),
             StreamsBlockedFrame::Uni(max) => (Dir::Uni, max.into_u64()),
         };
-        if let Some(max_streams) = self.ctrl.on_streams_blocked(dir, max_streams) {
+        // a late or retransmitted STREAMS_BLOCKED must not take back what was already advertised
+        if let Some(max_streams) = self.ctrl.on_streams_blocked(dir, max_streams)
+            && let Some(max_streams) = Self::raised_limit(self.max[dir as usize], max_streams)
+        {
             self.max[dir as usize] = max_streams;
             self.max_tx.send_frame([MaxStreamsFrame::with(
                 dir,
